@@ -240,6 +240,28 @@ def judge(c, part):
             big = any(abs(int(v)) > LARGE[dt.itemsize] and int(ftype.type(int(v))) != int(v) for v in c["values"])
             if big and not ws2:
                 bad(f"missing-overflow-warning:inplace:{route}")
+        # a caller that turns the overflow RuntimeWarning into an exception (python -W error) gets either the finished
+        # conversion or an untouched target - never a relabelled buffer holding the old integer bits
+        if isint and dt.itemsize in LARGE and ws2 and route != "to_value":
+            z = x.copy()
+            snap = (np.asarray(z).tobytes(), str(z.dtype), str(z.units))
+            part.ev()
+            part.count("in-place conversion with the overflow warning raised as an error")
+            with warnings.catch_warnings():
+                warnings.simplefilter("ignore")
+                warnings.simplefilter("error", RuntimeWarning)
+                try:
+                    twin(z)
+                    raised = None
+                except Warning as e:
+                    raised = e
+                except Exception as e:
+                    raised = e
+            now = (np.asarray(z).tobytes(), str(z.dtype), str(z.units))
+            untouched = now == snap
+            finished = z.dtype == y.dtype and str(z.units) == str(y.units) and np.array_equal(np.asarray(z), np.asarray(y), equal_nan=True)
+            if not (untouched or finished):
+                bad(f"warning-as-error-leaves-garbage:{INPLACE.get(route, 'convert_to_units')}", raised=raised, target_now=z, original=x, converted=y)
         if len(part.samples) < 1:
             part.sample({"dtype": c["dtype"], "from": fu, "route": route, "values": c["values"], "result": repr(r)[:100], "result dtype": str(rdt)})
         return out
